@@ -1597,3 +1597,219 @@ func ruleC12R7(c *Ctx) {
 	c.floor("C12.R7", "stores into record fields in per-record code", nSinks, 8)
 	c.ok("C12.R7", nil, "no record field aliases a long-lived scratch buffer", 0, fmt.Sprintf("%d stores into record fields examined in %d per-record functions", nSinks, len(fns)))
 }
+
+// C15.R7: the value matchers are the primitives their tags name. What a matcher matches is value-level and not decided by
+// this family; the claim "matchers behave as documented" therefore rests on each tag being *delegated* to the one
+// primitive its documentation names — a Go operator on (value, operand) or a standard / library function applied to them.
+// The rule checks that delegation per tag of bmatch.valueMatcherConstructors: on the success path of the constructor the
+// match function is a closure whose every return is exactly that primitive of its parameter and the constructor's
+// operand, or the bound library method of the value compiled from the operand. Anything else — a fast path, a cache,
+// a pre-filter — is UNDECIDED here, and undecided fails, also when the deviation happens to be correct.
+func init() {
+	register("C15", "C15.R7", ruleC15R7)
+}
+
+type matcherSpec struct {
+	kind string // binop | call | bound
+	op   token.Token
+	fn   string // call: external function; bound: method
+	ctor string // bound: the compile function applied to the operand
+	lenV bool   // binop over len(v) and the converted operand
+}
+
+var matcherTable = map[string]matcherSpec{
+	"!!str":         {kind: "binop", op: token.EQL},
+	"!!str-eq":      {kind: "binop", op: token.EQL},
+	"!!str-not":     {kind: "binop", op: token.NEQ},
+	"!!str-any":     {kind: "binop", op: token.GTR, lenV: true},
+	"!!str-start":   {kind: "call", fn: "strings.HasPrefix"},
+	"!!str-end":     {kind: "call", fn: "strings.HasSuffix"},
+	"!!str-contain": {kind: "call", fn: "strings.Contains"},
+	"!!glob":        {kind: "bound", fn: "Match", ctor: "github.com/gobwas/glob.Compile"},
+	"!!regex":       {kind: "bound", fn: "(*regexp.Regexp).MatchString", ctor: "regexp.Compile"},
+	"!!len-gt":      {kind: "binop", op: token.GTR, lenV: true},
+	"!!len-lt":      {kind: "binop", op: token.LSS, lenV: true},
+}
+
+func ruleC15R7(c *Ctx) {
+	// the constructor of each tag, from the initializer of the table
+	ctors := map[string]*ssa.Function{}
+	var inits []*ssa.Function
+	if sp := c.P.prog.Package(c.P.pkgByRel["base/bmatch"].Types); sp != nil {
+		if f := sp.Func("init"); f != nil {
+			inits = append(inits, f)
+		}
+	}
+	for _, fn := range inits {
+		eachInstr(fn, func(in ssa.Instruction) {
+			mu, ok := in.(*ssa.MapUpdate)
+			if !ok {
+				return
+			}
+			k, ok := mu.Key.(*ssa.Const)
+			if !ok || k.Value == nil || k.Value.Kind() != constant.String {
+				return
+			}
+			var f *ssa.Function
+			switch v := strip(mu.Value).(type) {
+			case *ssa.Function:
+				f = v
+			case *ssa.MakeClosure:
+				f, _ = v.Fn.(*ssa.Function)
+			}
+			if f != nil && strings.HasPrefix(f.Name(), "createValueMatcher") {
+				ctors[constant.StringVal(k.Value)] = f
+			}
+		})
+	}
+	c.floor("C15.R7", "value-matcher tags", len(ctors), 11)
+	var tags []string
+	for t := range ctors {
+		tags = append(tags, t)
+	}
+	sort.Strings(tags)
+	for _, tag := range tags {
+		ctor := ctors[tag]
+		spec, known := matcherTable[tag]
+		construct := "matcher " + tag + " is the primitive its tag names"
+		if !known {
+			c.bad("C15.R7", ctor, construct, ctor.Pos(), "UNDECIDED: a value-matcher tag this analysis has no documented primitive for")
+			continue
+		}
+		operand := ssa.Value(ctor.Params[0])
+		// the match function stored on the success path
+		var matchVals []ssa.Value
+		for _, st := range storesToField(ctor, "base/bmatch.valueMatch.match") {
+			matchVals = append(matchVals, st.Val)
+		}
+		if len(matchVals) != 1 {
+			c.bad("C15.R7", ctor, construct, ctor.Pos(), fmt.Sprintf("UNDECIDED: %d stores of the match function (one expected)", len(matchVals)))
+			continue
+		}
+		var mc *ssa.MakeClosure
+		var mf *ssa.Function
+		switch x := strip(matchVals[0]).(type) {
+		case *ssa.MakeClosure:
+			mc = x
+			mf = x.Fn.(*ssa.Function)
+		case *ssa.Function:
+			mf = x // a literal that captures nothing
+			mc = &ssa.MakeClosure{Fn: x}
+		default:
+			c.bad("C15.R7", ctor, construct, matchVals[0].Pos(), "UNDECIDED: the match function is not a function literal / bound method built here")
+			continue
+		}
+		// binding of a free variable of the closure to a constructor value
+		bound := func(v ssa.Value) ssa.Value {
+			v = strip(v)
+			if u, ok := v.(*ssa.UnOp); ok && u.Op == token.MUL {
+				v = u.X
+			}
+			fv, ok := v.(*ssa.FreeVar)
+			if !ok {
+				return nil
+			}
+			for i, f := range mf.FreeVars {
+				if f == fv && i < len(mc.Bindings) {
+					b := strip(mc.Bindings[i])
+					if al, ok := b.(*ssa.Alloc); ok {
+						if sv, ok := singleStore(al); ok {
+							return strip(sv)
+						}
+					}
+					return b
+				}
+			}
+			return nil
+		}
+		isOperand := func(v ssa.Value) bool {
+			b := bound(v)
+			if b == nil {
+				return false
+			}
+			if b == operand {
+				return true
+			}
+			// the operand converted once at construction (strconv.Atoi(expr))
+			if ex, ok := b.(*ssa.Extract); ok && ex.Index == 0 {
+				if cl, ok := ex.Tuple.(*ssa.Call); ok && cl.Common().StaticCallee() != nil && extName(cl.Common().StaticCallee()) == "strconv.Atoi" && strip(cl.Common().Args[0]) == operand {
+					return true
+				}
+			}
+			return false
+		}
+		good, why := false, ""
+		switch spec.kind {
+		case "bound":
+			// (*T).Method$bound with the receiver compiled from the operand
+			if mf.Synthetic != "" && strings.Contains(mf.Name(), "$bound") && len(mc.Bindings) == 1 {
+				okM := strings.HasSuffix(strings.TrimSuffix(mf.Name(), "$bound"), strings.TrimPrefix(spec.fn, "(*regexp.Regexp)."))
+				recv := strip(mc.Bindings[0])
+				okC := false
+				if ex, ok := recv.(*ssa.Extract); ok && ex.Index == 0 {
+					if cl, ok := ex.Tuple.(*ssa.Call); ok && cl.Common().StaticCallee() != nil && extName(cl.Common().StaticCallee()) == spec.ctor && strip(cl.Common().Args[0]) == operand {
+						okC = true
+					}
+				}
+				good = okM && okC
+				if !good {
+					why = "the bound method is not " + spec.fn + " of " + spec.ctor + "(operand)"
+				}
+			} else {
+				why = "the match function is not the bound library method (" + spec.fn + ")"
+			}
+		default:
+			if len(mf.Params) != 1 || mf.Synthetic != "" {
+				why = "the match function is not a one-parameter function literal"
+				break
+			}
+			v := ssa.Value(mf.Params[0])
+			good = true
+			nRet := 0
+			eachInstr(mf, func(in ssa.Instruction) {
+				r, ok := in.(*ssa.Return)
+				if !ok || len(r.Results) != 1 {
+					return
+				}
+				nRet++
+				res := strip(r.Results[0])
+				switch spec.kind {
+				case "call":
+					cl, ok := res.(*ssa.Call)
+					if !ok || cl.Common().StaticCallee() == nil || extName(cl.Common().StaticCallee()) != spec.fn || len(cl.Common().Args) != 2 ||
+						strip(cl.Common().Args[0]) != v || !isOperand(cl.Common().Args[1]) {
+						good, why = false, "a return is not "+spec.fn+"(value, operand): "+canonOf(res)
+					}
+				case "binop":
+					bo, ok := res.(*ssa.BinOp)
+					if !ok || bo.Op != spec.op {
+						good, why = false, "a return is not `value "+spec.op.String()+" operand`: "+canonOf(res)
+						return
+					}
+					if spec.lenV {
+						lc, ok := strip(bo.X).(*ssa.Call)
+						if !ok || !isBuiltin(lc, "len") || strip(lc.Call.Args[0]) != v {
+							good, why = false, "the left side is not len(value)"
+							return
+						}
+						if k, isK := constInt(bo.Y); isK {
+							if !(tag == "!!str-any" && k == 0) {
+								good, why = false, "the right side is a constant"
+							}
+						} else if !isOperand(bo.Y) {
+							good, why = false, "the right side is not the configured number"
+						}
+					} else if strip(bo.X) != v || !isOperand(bo.Y) {
+						good, why = false, "the operands are not (value, operand)"
+					}
+				}
+			})
+			if nRet != 1 && good {
+				good, why = false, fmt.Sprintf("%d returns (one expected)", nRet)
+			}
+		}
+		c.check(good, "C15.R7", ctor, construct, matchVals[0].Pos(),
+			"the match function is exactly the documented primitive applied to (value, operand)",
+			"UNDECIDED (counts as failure): "+why+". What a matcher matches is not decided by this analysis; the claim rests on the tag being delegated to the primitive its documentation names, and this constructor no longer does that (a fast path, cache or pre-filter needs a value-level argument this family cannot give)")
+	}
+}
